@@ -430,6 +430,8 @@ def d9(ctx, prog):
         ok, why = ratfun.same_function(got, ref, pts)
         ctx.check(ok, 'C09-D9', key, f'what the analysis computes is not (mean1 - mean2) / sqrt(var1/n1 + var2/n2) with population variances: {why}',
                   'the result is Welch\'s t as a rational function of (S1, Q1, n1, S2, Q2, n2) (normal forms cross-multiplied)', fin.where())
+    except ratfun.Masked as e:
+        ctx.fail('C09-D9', key, f'{e}: where both variances are 0 the Welch statistic is +-inf (a sample that separates the two sets perfectly) or NaN, not the value `out` was filled with', fin.where())
     except ratfun.Unknown as e:
         ctx.undecided('C09-D9', key, f'formula not derivable: {e}', fin.where())
     return 1
